@@ -835,7 +835,8 @@ static void space_verdict(void)
 
 /* ------------------------------------------------------------------ mutated archives under the sanitizers (C08) */
 
-static void extract_walk(const uint8_t *a, size_t n)
+/* limit: the caller abandons the archive after this many entries (200: walks to the end) */
+static void extract_walk(const uint8_t *a, size_t n, int limit)
 {
 	mem_stream ms;
 	LHAInputStream *st;
@@ -846,7 +847,7 @@ static void extract_walk(const uint8_t *a, size_t n)
 	BAL = 0; BTRACK = LEAKS;
 	st = mem_open(&ms, a, n, 1);
 	rd = lha_reader_new(st);
-	while ((h = lha_reader_next_file(rd)) != NULL && k < 200) {
+	while (k < limit && (h = lha_reader_next_file(rd)) != NULL) {
 		/* explicit output names: the library itself does not confine header paths */
 		snprintf(name, sizeof name, "c08-out-%d-%d", (int) getpid(), k);
 		if (!(h->length > (1u << 20) && !strcmp(h->compress_method, "-pm1-")))
@@ -874,7 +875,11 @@ static void four_walks(const uint8_t *a, size_t n)
 	vf_step(obs_hash(&o));
 	walk(K_SEEKLIKE, a, n, 2, 0, &o);
 	vf_step(obs_hash(&o));
-	extract_walk(a, n);
+	extract_walk(a, n, 200);
+	/* and abandoned after 1, 2 and 3 entries, e.g. inside a directory that was just created */
+	extract_walk(a, n, 1);
+	extract_walk(a, n, 2);
+	extract_walk(a, n, 3);
 	vf_outcome(obs_hash(&o));
 }
 
